@@ -313,6 +313,18 @@ func cmdCheck(args []string) int {
 			}
 			allObls = append(allObls, o)
 		}
+		// regular-expression lemmas
+		for _, rd := range c.regexes {
+			if !containsStr(rd.Props, *prop) {
+				continue
+			}
+			os, err := regexObligations(c, rd)
+			if err != nil {
+				genErrs = append(genErrs, "regex "+rd.Var+": "+err.Error())
+				continue
+			}
+			allObls = append(allObls, os...)
+		}
 	}
 	if len(genErrs) > 0 {
 		return undecided(strings.Join(genErrs, "\n"))
@@ -474,7 +486,7 @@ func cmdCheck(args []string) int {
 	fmt.Printf("property %s tier %s: %d obligations, %d discharged, %d known-finding, %d violated (%.1fs wall, %.1fs solver)\n",
 		*prop, *tier, len(allObls), discharged, knownHits, violations, wall, solverSecs)
 
-	if !*noEvidence {
+	if !*noEvidence && os.Getenv("VERIF_NO_EVIDENCE") == "" {
 		var samples []any
 		for i, r := range reports {
 			if i%maxInt(1, len(reports)/6) == 0 {
@@ -710,7 +722,15 @@ func writeReplay(path, prop string, r *Result, where string) string {
 			m = m[:20000] + "\n...(truncated)"
 		}
 		rep["solver_model"] = m
-		if ok, detail := tryReplay(prop, r, mv); ok {
+		if r.Obl.Kind == "regex" {
+			if ok, detail := regexWitness(r.Obl, r.Model); ok {
+				rep["replayed_on_code"] = true
+				rep["failing_input"] = detail
+				suffix = ""
+			} else if detail != "" {
+				rep["replay_attempt"] = detail
+			}
+		} else if ok, detail := tryReplay(prop, r, mv); ok {
 			rep["replayed_on_code"] = true
 			rep["failing_input"] = detail
 			suffix = ""
